@@ -104,6 +104,7 @@ def main(argv):
     samples = []
     observed = {}
     ubsan = {}
+    tsan_by_design = {}
     inconclusive = []
     viol_by_key = {}
     diag_by_key = {}
@@ -153,6 +154,8 @@ def main(argv):
             observed['%s/%s' % (j['name'], k)] = v
         for k, v in agg['ubsan'].items():
             ubsan[k] = ubsan.get(k, 0) + v
+        for k, v in agg.get('tsan_by_design', {}).items():
+            tsan_by_design[k] = tsan_by_design.get(k, 0) + v
         inconclusive += ['%s: %s' % (j['name'], x) for x in agg['inconclusive']]
         for req in j.get('require', []):
             if agg['counters'].get(req, 0) == 0:
@@ -208,6 +211,7 @@ def main(argv):
             jobs=job_summaries,
             observed=observed,
             ubsan_diagnostics=ubsan,
+            tsan_reports_inside_by_design_racy_ring_accesses=tsan_by_design,
             diagnostics={k: v for k, v in diag_by_key.items()},
             findings_matched=matched,
             new_violation_keys=[k for k, _ in new_viol],
